@@ -109,33 +109,7 @@ def run(F, R):
     from .C08 import h0 as _h0, h1_begin_finish as _h1
     _h0(F, RuleProxy(R, {'H0': 'R9'}))
     _h1(F, RuleProxy(R, {'H1': 'R9'}))
-    # R11: a non-blocking submission that has put the caller's buffer on the queue returns its token: no error return after a
-    # successful add - the caller would keep (or free) a buffer the device still owns, with no token to complete it
-    n11 = 0
-    for b_ in sorted(F.bodies.values(), key=lambda x: x['id']):
-        if not F.handwritten(b_) or b_['kind'] != 'AssocFn' or not b_.get('pub') or b_.get('impl_adt') in (M.queue_adt, M.owning_adt) or \
-                not re.search(r'-> core::result::Result<u16, ', b_.get('sig', '')):
-            continue
-        sg_ = supergraph(F, b_['id'], opaque=lambda t, bb: bb['id'] in roles or (bb.get('pub') and bb['id'] != b_['id']) or has_loop(bb), tag='r11')
-        if not any(True for _ in sg_.calls(lambda d: roles.get(d.get('fn')) == 'add')):
-            continue
-        try:
-            paths_ = [p for p in PathEnum(sg_).run() if not p.panicked]
-        except PathLimit:
-            continue
-        n11 += 1
-        bad_ = None
-        for p in paths_:
-            adds_ = [e for e in p.effects if e[0] == 'call' and roles.get(e[2]) == 'add']
-            if not adds_:
-                continue
-            ok_add = any(c[0][0] == 'discr' and any(x[0] == 'call' and x[1] == adds_[0][1] for x in subterms(c[0])) and c[1] == ('in', (0,)) for c in p.conds)
-            ev_ = err_variant(p.ret)
-            if ok_add and ev_ not in ('Ok', None):
-                bad_ = 'returns %s after the add succeeded' % ev_
-        R.check(bad_ is None, 'R11', '%s:no-error-after-add' % b_['id'], fn_site(F, b_['id']), 'every check that can refuse the request precedes the add',
-                '%s %s: the buffer stays on the live queue while the caller is told the submission failed (and may free it)' % (b_['name'], bad_))
-    R.count('token_submitters', n11)
+    r11_no_error_after_add(F, R, M, roles)
     # R10: a driver-owned buffer posted on a live queue is not released: the net driver's recycle refuses (dropping the by-value
     # buffer) only on an occupancy test of the slot of the token it has just posted under - a slot that is empty whenever
     # receive vacated it (C16.S4 custody)
@@ -518,3 +492,33 @@ def r7_unset_all(F, R, M, drivers):
                 'Drop disables queues %s but the constructor enabled queues %s: queue(s) %s stay enabled and keep pointing at DMA memory that is freed immediately '
                 'afterwards (on a transport that does not reset on drop the device is still live on them)' % (sorted(unset), sorted(created), sorted(created - unset)))
     R.count('unsetting_drops', n)
+
+
+def r11_no_error_after_add(F, R, M, roles):
+    # R11: a non-blocking submission that has put the caller's buffer on the queue returns its token: no error return after a
+    # successful add - the caller would keep (or free) a buffer the device still owns, with no token to complete it
+    n11 = 0
+    for b_ in sorted(F.bodies.values(), key=lambda x: x['id']):
+        if not F.handwritten(b_) or b_['kind'] != 'AssocFn' or not b_.get('pub') or b_.get('impl_adt') in (M.queue_adt, M.owning_adt) or \
+                not re.search(r'-> core::result::Result<u16, ', b_.get('sig', '')):
+            continue
+        sg_ = supergraph(F, b_['id'], opaque=lambda t, bb: bb['id'] in roles or (bb.get('pub') and bb['id'] != b_['id']) or has_loop(bb), tag='r11')
+        if not any(True for _ in sg_.calls(lambda d: roles.get(d.get('fn')) == 'add')):
+            continue
+        try:
+            paths_ = [p for p in PathEnum(sg_).run() if not p.panicked]
+        except PathLimit:
+            continue
+        n11 += 1
+        bad_ = None
+        for p in paths_:
+            adds_ = [e for e in p.effects if e[0] == 'call' and roles.get(e[2]) == 'add']
+            if not adds_:
+                continue
+            ok_add = any(c[0][0] == 'discr' and any(x[0] == 'call' and x[1] == adds_[0][1] for x in subterms(c[0])) and c[1] == ('in', (0,)) for c in p.conds)
+            ev_ = err_variant(p.ret)
+            if ok_add and ev_ not in ('Ok', None):
+                bad_ = 'returns %s after the add succeeded' % ev_
+        R.check(bad_ is None, 'R11', '%s:no-error-after-add' % b_['id'], fn_site(F, b_['id']), 'every check that can refuse the request precedes the add',
+                '%s %s: the buffer stays on the live queue while the caller is told the submission failed (and may free it)' % (b_['name'], bad_))
+    R.count('token_submitters', n11)
